@@ -28,6 +28,8 @@ type KSCase struct {
 	Extra   int        `json:"shareExtraLevels"` // shares are allocated Extra levels above the ciphertext (clamped)
 	InPlace bool       `json:"inPlace"`          // KeySwitch(ct, share, ct)
 	Shallow bool       `json:"shallow"`          // parties use ShallowCopy()s of one protocol instance
+	C0Nil   bool       `json:"c0Nil"`            // GenShare receives the ciphertext without its degree-0 part (documented as unused)
+	Dirty   bool       `json:"dirtyReceivers"`   // shares handed to GenShare / AggregateShares hold earlier content
 	Level2  int        `json:"level2"`           // level of a second ciphertext sent through the same protocol instances, keys and receiver (-1: none)
 }
 
@@ -52,6 +54,8 @@ func genKS(t *rapid.T) KSCase {
 	}
 	c.InPlace = rapid.Bool().Draw(t, "inPlace")
 	c.Shallow = rapid.Bool().Draw(t, "shallow")
+	c.Dirty = rapid.Bool().Draw(t, "dirty")
+	c.C0Nil = rapid.IntRange(0, 2).Draw(t, "c0nil") == 0
 	c.Level2 = -1
 	if rapid.Bool().Draw(t, "second") {
 		c.Level2 = rapid.IntRange(0, len(c.Params.Q)-1).Draw(t, "level2")
@@ -123,6 +127,10 @@ func runKSRound(c KSCase, rec *h.Rec, st *ksState, level int, seed uint64, first
 	ringQ := params.RingQ().AtLevel(level)
 	N := params.N()
 	rng := h.NewSplitMix(seed)
+	dd := dirtier{on: c.Dirty, rng: h.NewSplitMix(seed ^ 0xd1b54a32d192ed03), rQ: params.RingQ()}
+	if c.Dirty && first {
+		rec.Class("receivers=earlier-content")
+	}
 
 	if st.in == nil {
 		ks := newKeySet(params, n, nil)
@@ -159,6 +167,15 @@ func runKSRound(c KSCase, rec *h.Rec, st *ksState, level int, seed uint64, first
 		out = st.prevOut // receiver with a history: the output of the previous ciphertext
 	default:
 		out = rlwe.NewCiphertext(params, 1, rapidLevel(rng, params.MaxLevel()))
+	}
+
+	// the ciphertext as GenShare sees it: "ct.Value[0] is not used by the function and can be nil/zero"
+	ctG := ct
+	if c.C0Nil {
+		ctG = &rlwe.Ciphertext{Element: rlwe.Element[ring.Poly]{Value: []ring.Poly{{}, ct.Value[1]}, MetaData: ct.MetaData}}
+		if first {
+			rec.Class("GenShare:c0=nil")
+		}
 	}
 
 	c1ntt := ringQ.NewPoly()
@@ -254,7 +271,8 @@ func runKSRound(c KSCase, rec *h.Rec, st *ksState, level int, seed uint64, first
 		for i := range shares {
 			pi := proto(i)
 			shares[i] = pi.AllocateShare(shareLevel)
-			pi.GenShare(in.shares[i], outKeys.shares[i], ct, &shares[i])
+			dd.poly(shares[i].Value)
+			pi.GenShare(in.shares[i], outKeys.shares[i], ctG, &shares[i])
 			if shares[i].Level() != level {
 				return h.Failf("C16:KeySwitch:GenShare:share-level", "share level %d after GenShare on a level-%d ciphertext (allocated at %d)", shares[i].Level(), level, shareLevel)
 			}
@@ -279,7 +297,7 @@ func runKSRound(c KSCase, rec *h.Rec, st *ksState, level int, seed uint64, first
 				return h.Failf("C16:KeySwitch:AggregateShares:error", "%v", err)
 			}
 		}
-		agg, err := fold(shares, c.Merges, func() multiparty.KeySwitchShare { return p0.AllocateShare(level) },
+		agg, err := fold(shares, c.Merges, func() multiparty.KeySwitchShare { a := p0.AllocateShare(level); dd.poly(a.Value); return a },
 			func(a, b multiparty.KeySwitchShare, o *multiparty.KeySwitchShare) error { return p0.AggregateShares(a, b, o) })
 		if err != nil {
 			return h.Failf("C16:KeySwitch:AggregateShares:error", "%v", err)
@@ -361,7 +379,8 @@ func runKSRound(c KSCase, rec *h.Rec, st *ksState, level int, seed uint64, first
 		for i := range shares {
 			pi := proto(i)
 			shares[i] = pi.AllocateShare(shareLevel)
-			pi.GenShare(in.shares[i], pkOut, ct, &shares[i])
+			dd.poly(shares[i].Value[0], shares[i].Value[1])
+			pi.GenShare(in.shares[i], pkOut, ctG, &shares[i])
 			if err := collect(cls(i), residual(i, shares[i]), boundParty, "C16:PublicKeySwitch:GenShare:noise-above-bound"); err != nil {
 				return err
 			}
@@ -377,7 +396,7 @@ func runKSRound(c KSCase, rec *h.Rec, st *ksState, level int, seed uint64, first
 				return h.Failf("C16:PublicKeySwitch:AggregateShares:error", "%v", err)
 			}
 		}
-		agg, err := fold(shares, c.Merges, func() multiparty.PublicKeySwitchShare { return p0.AllocateShare(shareLevel) },
+		agg, err := fold(shares, c.Merges, func() multiparty.PublicKeySwitchShare { a := p0.AllocateShare(shareLevel); dd.poly(a.Value[0], a.Value[1]); return a },
 			func(a, b multiparty.PublicKeySwitchShare, o *multiparty.PublicKeySwitchShare) error {
 				return p0.AggregateShares(a, b, o)
 			})
